@@ -48,6 +48,8 @@ def run(R):
         r7(R)
     if R.want("C02.R8"):
         r8(R)
+    if R.want("C02.R9"):
+        r9(R)
 
 
 def col(name, n=3):
@@ -309,3 +311,24 @@ def r8(R):
                         "that compute_xyz_from_tth_eta made with the same translation" % ", ".join(missing))
     R.shape(n >= 1, "C02.R8", "ImageD11/transform.py", "compute_tth_eta_from_xyz", "the translation shortcut in front of compute_grain_origins")
     R.floor("C02.R8", 1)
+
+
+def r9(R):
+    """the g-vector / k-vector routines take their batch of vectors in ONE documented layout.  A layout guessed from the shape
+    ('if g.shape[1] == 3: g = g.T') cannot tell the two layouts apart for exactly three vectors, where both are (3, 3): that batch is
+    silently transposed, the angles returned belong to other vectors and the laws (Bragg, invertibility) fail for n == 3 only."""
+    import ast
+    from engine import pyfacts
+    R.rule("C02.R9", "transform.py / gv_general.py: no function chooses between the (3, n) and (n, 3) layouts of its vectors by testing a "
+                     "shape entry against 3 and transposing (ambiguous for a batch of exactly three vectors)")
+    n = 0
+    for rel in ("ImageD11/transform.py", "ImageD11/gv_general.py"):
+        m = pyfacts.module(R, rel)
+        for q, fn in sorted(m.funcs.items()):
+            n += 1
+            for st, a in pyfacts.shape_sniffs(fn)[:1]:
+                R.violation("C02.R9", rel, st.lineno, q, "if %s: %s is transposed" % (pyfacts.src(st.test)[:50], a),
+                            "the layout of '%s' is guessed from its shape: three vectors make a (3, 3) array in both layouts, so a batch of "
+                            "exactly three in the documented layout is transposed and the result describes other vectors" % a)
+            R.inst("C02.R9", "%s:%s no layout guess" % (rel, q))
+    R.floor("C02.R9", 20)
